@@ -10,6 +10,7 @@
    hseq ops is the sequence they leave (Add appends, SetLen l <= length keeps
    the first l hashes); lengths fit int64 ((adds ops) < 2^63). *)
 From Goloop Require Import lib.Bytes lib.BytesMap Model_Hexary Proofs_Hexary.
+From Goloop Require Import Link_C28.
 
 (* the header is a function of the sequence alone: additions only ... *)
 Theorem C28_header_of_adds : forall H, hash32 H -> forall xs, Forall h32 xs ->
@@ -78,3 +79,31 @@ Theorem C28_rewind : forall H, hash32 H -> forall ops l,
   \/ collision H.
 Proof. exact rewind. Qed.
 Print Assumptions C28_rewind.
+
+(* ---- kernel links (Link_C28.v).  LevelFromLen, powerOf16 and minProofLenForKey are
+   re-generated from icon/merkle/hexary on every run (tools/go2coq); level_from_len,
+   power_of_16 and min_proof_len of the model, used in all theorems above, ARE the
+   functions of the current Go code for every length / key that fits an int64 (uint64
+   for powerOf16; 17 = loop fuel sufficient for every uint64) ---- *)
+Theorem C28_kernel_LevelFromLen : forall len : N,
+  (Z.of_N len <= 9223372036854775807)%Z ->
+  Z.of_nat (level_from_len len) = LevelFromLen (Z.of_N len).
+Proof. exact level_from_len_is_LevelFromLen. Qed.
+Print Assumptions C28_kernel_LevelFromLen.
+
+Theorem C28_kernel_powerOf16 : forall n : N,
+  (Z.of_N n <= 18446744073709551615)%Z ->
+  powerOf16 17 (Z.of_N n) = Some (power_of_16 n).
+Proof. exact power_of_16_is_powerOf16. Qed.
+Print Assumptions C28_kernel_powerOf16.
+
+(* kernel argument order: (key, sa.level) *)
+Theorem C28_kernel_minProofLenForKey : forall (level : nat) (key : N),
+  (Z.of_N key <= 9223372036854775807)%Z -> (Z.of_nat level <= 9223372036854775807)%Z ->
+  Z.of_nat (min_proof_len level key) = minProofLenForKey (Z.of_N key) (Z.of_nat level).
+Proof. exact min_proof_len_is_minProofLenForKey. Qed.
+Print Assumptions C28_kernel_minProofLenForKey.
+
+Theorem C28_kernel_params : Link_C28.kernel_params_pinned.
+Proof. exact Link_C28.kernel_params_ok. Qed.
+Print Assumptions C28_kernel_params.
